@@ -384,6 +384,9 @@ def run(ctx):
     from . import c15
     reuse(ctx, c15.evidence_dtype_rule, ("C15.evid",), "C02smc", "precision rule shared with C15: per-step ratios narrowed to Python floats come back in the namespace's default width "
           "(float32 under torch), so the returned log-evidence and its error are not accurate to the requested float64")
+    # ---- the three densities a weight is computed from are those of the same draw: the initial population is built row-aligned
+    reuse(ctx, c10.init_rule, ("C10.init",), "C02init", "pairing rule shared with C10: log_w[i] = L + P - Q needs log_q[i] to be the proposal density of x[i]; a population whose "
+          "coordinates are filtered by the prior mask while log_q is only truncated carries another draw's log_q in row i")
     # ---- values returned by a pool-mapped likelihood / prior belong to the rows they were computed for
     reuse(ctx, c10.pool_rule, ("C10.pool",), "C02pool", "pool rule shared with C10: with an unordered map the log-likelihood stored in row i is that of another sample, so log_w[i] is not L + P - Q of sample i")
     # ---- the same functional on SMC populations: the step's evidence ratio is the log of the mean incremental weight
@@ -517,6 +520,10 @@ MUTANTS += [
     M("relative error without centring", _S, "self.xp.sum((rel_w - 1.0) ** 2) / (n * (n - 1))", "self.xp.sum(rel_w ** 2) / (n * (n - 1))", "C02.derived"),
     M("rejection sample drops the likelihood", _S, "log_likelihood=self.log_likelihood[accept],\n            log_prior=self.log_prior[accept],\n            dtype=self.dtype,", "log_prior=self.log_prior[accept],\n            dtype=self.dtype,", "C02.rejidx"),
     M("logsumexp ignores axis", _U, "return c + xp.log(xp.sum(xp.exp(x - c), axis=axis))", "return c + xp.log(xp.sum(xp.exp(x - c)))", "C02.lse"),
+]
+MUTANTS += [
+    M("initial population keeps the proposal density of a different draw", "src/aspire/samplers/mcmc.py", "x, log_q = self.prior_flow.sample_and_log_prob(n_samples)",
+      "x, _ = self.prior_flow.sample_and_log_prob(n_samples)\n            _, log_q = self.prior_flow.sample_and_log_prob(n_samples)", "C02init.init"),
 ]
 NEUTRALS = [
     M("weight initialisation moved into a helper", _S, "super().__post_init__()\n\n        if all(", "super().__post_init__()\n        self._init_weights()\n\n    def _init_weights(self):\n        if all(", within="Samples"),
